@@ -99,6 +99,13 @@ def execute(case):
         def data_tx_since(n0):
             return [r for r in stub.sent[n0:] if r["telegram"] is not None and isinstance(r["telegram"].tpci, tpci.TDataConnected) and str(r["telegram"].destination_address) == PEER]
 
+        def requests_transmitted():
+            """Number of requests so far whose data frame went out at least once."""
+            return sum(1 for rq in obs["reqs"] if data_tx_since(rq["sent_from"])[:1] and (rq.get("sent_to") is None or any(True for _ in data_tx_between(rq["sent_from"], rq["sent_to"]))))
+
+        def data_tx_between(n0, n1):
+            return [r for r in stub.sent[n0:n1] if r["telegram"] is not None and isinstance(r["telegram"].tpci, tpci.TDataConnected) and str(r["telegram"].destination_address) == PEER]
+
         def last_own_seq():
             for r in reversed(stub.sent):
                 tg = r["telegram"]
@@ -110,7 +117,7 @@ def execute(case):
             kind, s = frame[0], frame[1]
             src = SRC[s]
             mine = s == "p"
-            meta = {"kind": kind, "from": s, "req": cur["req"], "after_tx": cur["req"] is not None and bool(data_tx_since(cur["tx0"])), "ref_open": ref["open"] and mine, "ref_R": ref["R"] if mine else None, "epoch": len(obs["epochs"])}
+            meta = {"kind": kind, "from": s, "req": cur["req"], "after_tx": cur["req"] is not None and bool(data_tx_since(cur["tx0"])), "ref_open": ref["open"] and mine, "ref_R": ref["R"] if mine else None, "epoch": len(obs["epochs"]), "ntx": requests_transmitted()}
             if kind in ("ack", "nak"):
                 n = (last_own_seq() + int(frame[2])) & 0xF
                 tg = inj.ack(n) if kind == "ack" else inj.nak(n)
@@ -249,18 +256,33 @@ def _frame_cause(rec):
 
 def _ambiguous_before(obs, rec, returned) -> bool:
     """True if, earlier in the same connection epoch, the reference receive counter may be ahead of a
-    conforming client: an in-sequence frame that no request ever returned (a client whose single
-    response slot was occupied may have discarded it), or a T_Connect of the peer on the open
-    connection (undefined in 03_03_04 for the client role). The statement does not say what the
-    expected number is afterwards, so number judgements are skipped there."""
-    for r in reversed(obs["rx"][: rec["i"]]):
-        if r.get("epoch") != rec.get("epoch"):
-            break
-        if r["from"] != "p":
+    conforming client with a single response slot, so that the statement does not fix the expected number:
+    (i)   a T_Connect of the peer on the open connection (undefined in 03_03_04 for the client role);
+    (ii)  an in-sequence frame F2 that arrived while an earlier in-sequence frame F1 may still have occupied the
+          slot: no request was transmitted between them (a request empties the slot before it sends) and F1 was
+          not handed to its request before F2 came - the client may have discarded F2 without counting it;
+    (iii) an in-sequence frame, never returned, that arrived at the very instant its request ended (timeout race).
+    A frame that is merely received and never consumed (its request had failed, the next request discards it)
+    is NOT ambiguous: it was accepted, the counter moved on."""
+    fresh = []
+    ends = {qi: rq["t_end"] for qi, rq in enumerate(obs["reqs"]) if rq.get("t_end") is not None}
+    for r in obs["rx"][: rec["i"]]:
+        if r.get("epoch") != rec.get("epoch") or r["from"] != "p":
             continue
         if r["kind"] == "conn" and r["ref_open"]:
             return True
-        if r["kind"] == "data" and r["fresh"] and r["uid"] not in returned:
+        if r["kind"] == "data" and r["fresh"]:
+            if r["uid"] not in returned and r["req"] in ends and abs(ends[r["req"]] - r["t"]) < 1e-9:
+                return True
+            fresh.append(r)
+    for a in range(len(fresh)):
+        f1 = fresh[a]
+        consumed_by = f1["req"] if f1["uid"] in returned and f1["req"] is not None and f1["after_tx"] else None
+        for f2 in fresh[a + 1 :]:
+            if f2["ntx"] > f1["ntx"]:
+                break  # a request went out in between: slot emptied, and so for all later frames
+            if consumed_by is not None and f2["req"] != consumed_by:
+                break  # F1 was returned by its request before F2 arrived
             return True
     return False
 
@@ -524,7 +546,10 @@ def _hyp_shard(ctx, n: int) -> None:
     hyp_search(ctx, cases(), _hyp_oracle, n, shrink_cap_s=6.0 if ctx.quick else 40.0)
 
 
-def _special_shard(ctx, which: str) -> None:
+FOLLOWUP_PATTERNS = ["no-ack", "nak", "wrong-ack", "late-response", "response-while-idle", "ack-lost-twice-late-response"]
+
+
+def _special_shard(ctx, which: str, which_kind: str = "dd", which_warm: int = 0, which_pattern: str = "") -> None:
     if which == "wrap":
         # 40 cleanly answered requests: outgoing and incoming numbers wrap modulo 16 twice; every 5th ACK is lost once (repetition)
         steps = [["connect"]]
@@ -555,6 +580,40 @@ def _special_shard(ctx, which: str) -> None:
                     n += 1
         ctx.bulk(n, n, "no-connection-frames")
         ctx.sample({"no-connection": frames})
+    elif which == "followup":
+        # request A fails although its response (number n) is received - never consumed; request B of the same service follows;
+        # the peer numbers correctly: B's response carries n+1, optionally preceded / replaced by a repetition of n; then request C.
+        n = 0
+        a_patterns = {
+            "no-ack": [["req", "K", [["y", ["data", "p", 0, "K"]]]]],
+            "nak": [["req", "K", [["y", ["data", "p", 0, "K"]], ["y", ["nak", "p", 0]]]]],
+            "wrong-ack": [["req", "K", [["y", ["ack", "p", 1]], ["y", ["data", "p", 0, "K"]]]]],
+            "late-response": [["req", "K", [["y", ["ack", "p", 0]], [6.1, ["data", "p", 0, "K"]]]]],
+            "response-while-idle": [["req", "K", [["y", ["ack", "p", 0]]]], ["idle", [[0.5, ["data", "p", 0, "K"]]]]],
+            "ack-lost-twice-late-response": [["req", "K", []], ["idle", [["y", ["data", "p", 0, "K"]]]]],
+        }
+        b_alphabet = {"a0": ["ack", "p", 0], "d0": ["data", "p", 0, "K"], "dm": ["data", "p", -1, "K"], "dp": ["data", "p", 1, "K"], "dx": ["data", "p", 0, "X"]}
+        for kind, other in (("dd", "auth"), ("auth", "dd")):
+            if kind != which_kind:
+                continue
+            def sub(x, kind=kind, other=other):
+                if isinstance(x, list):
+                    return [sub(y) for y in x]
+                return kind if x == "K" else (other if x == "X" else x)
+
+            for warm in (which_warm,):  # n = 0 or 1: with / without a cleanly answered request first
+                for pname, pat in a_patterns.items():
+                    if pname != which_pattern:
+                        continue
+                    for L in range(0, ctx.n(3, 4) + 1):
+                        for ks in itertools.product(b_alphabet, repeat=L):
+                            for g in ("y", "s") if L else ("y",):
+                                ev = [["y" if i == 0 else g, b_alphabet[k]] for i, k in enumerate(ks)]
+                                steps = [["connect"]] + ([["req", kind, CLEAN(kind)]] if warm else []) + sub(pat) + [sub(["req", "K", ev]), ["req", kind, CLEAN(kind)], ["disconnect"]]
+                                check_case(ctx, {"rate": 0, "steps": steps})
+                                n += 1
+                    ctx.sample({"followup": pname, "kind": kind, "warm": warm})
+        ctx.bulk(n, n, "response-received-not-consumed-then-further-requests")
     elif which == "timed":
         # one or two frames at every pair of instants around the ACK / response timeouts
         n = 0
@@ -584,9 +643,16 @@ def run(ctx) -> None:
         else:
             for k in ALPHABET:
                 jobs.append((length, k, full))
-    parallel(ctx, _enum_shard, jobs)
-    parallel(ctx, _special_shard, [("wrap",), ("noconn",), ("timed",)])
-    parallel(ctx, _hyp_shard, [(ctx.n(100, 2500),)] * 16)
+    import xknx.management.management  # noqa: F401  (import before forking)
+
+    import vk.simbus  # noqa: F401
+    import vk.xharness  # noqa: F401
+
+    parallel(ctx, _enum_shard, jobs, procs=ctx.n(6, 12))
+    procs = ctx.n(6, 12)  # cases cost ~1 ms; more workers mostly add fork / scheduling overhead on a shared box
+    follow = [("followup", k, w, p) for k in (("dd",) if ctx.quick else ("dd", "auth")) for w in (0, 1) for p in FOLLOWUP_PATTERNS]
+    parallel(ctx, _special_shard, [("wrap",), ("noconn",), ("timed",)] + follow, procs=procs)
+    parallel(ctx, _hyp_shard, [(ctx.n(100, 2500),)] * 16, procs=ctx.n(6, 12))
     ctx.exhaustive = False
     ctx.notes["exhaustive_core"] = (
         f"all sequences of <= {L} received frames over {len(ALPHABET)} frame kinds around the first request; every same-iteration/later-iteration gap pattern "
